@@ -875,15 +875,36 @@ func descendingOver(f *ssa.Function, s ssa.Value) bool {
 // all; a `continue` around the increment makes the back-edge value depend on
 // a branch and is rejected.
 func indexSequenceIs(f *ssa.Function, s ssa.Value, want func(n, k int64) int64) bool {
-	var ia *ssa.IndexAddr
+	// some loop that reads the elements of s does so in the wanted order (a
+	// second loop over the same slice, e.g. one that clears a tail, is not
+	// the one the caller asks about)
+	var ias []*ssa.IndexAddr
 	core.EachInstr(f, func(in ssa.Instruction) {
-		if x, ok := in.(*ssa.IndexAddr); ok && x.X == s && core.InLoop(x) {
-			ia = x
+		if x, ok := in.(*ssa.IndexAddr); ok && core.InLoop(x) {
+			if x.X != s {
+				n1, b1, ok1 := core.IsLoadOfField(x.X)
+				n2, b2, ok2 := core.IsLoadOfField(s)
+				if !(ok1 && ok2 && n1 == n2 && b1 == b2) {
+					return
+				}
+			}
+			for _, r := range core.Refs(x) {
+				if u, isU := r.(*ssa.UnOp); isU && u.Op == token.MUL {
+					ias = append(ias, x)
+					break
+				}
+			}
 		}
 	})
-	if ia == nil {
-		return false
+	for _, ia := range ias {
+		if indexSequenceAt(f, s, ia, want) {
+			return true
+		}
 	}
+	return false
+}
+
+func indexSequenceAt(f *ssa.Function, s ssa.Value, ia *ssa.IndexAddr, want func(n, k int64) int64) bool {
 	var head *ssa.BasicBlock
 	for h := range core.LoopHeads(f) {
 		if core.LoopBody(h)[ia.Block()] {
@@ -912,8 +933,17 @@ func indexSequenceIs(f *ssa.Function, s ssa.Value, want func(n, k int64) int64) 
 	var lens []ssa.Value
 	core.EachInstr(f, func(in ssa.Instruction) {
 		if call, ok := in.(*ssa.Call); ok {
-			if b, isB := call.Call.Value.(*ssa.Builtin); isB && (b.Name() == "len" || b.Name() == "cap") && len(call.Call.Args) == 1 && call.Call.Args[0] == s {
-				lens = append(lens, call)
+			if b, isB := call.Call.Value.(*ssa.Builtin); isB && (b.Name() == "len" || b.Name() == "cap") && len(call.Call.Args) == 1 {
+				same := call.Call.Args[0] == s
+				// another read of the same field (rec.Names re-read in every iteration)
+				n1, b1, ok1 := core.IsLoadOfField(call.Call.Args[0])
+				n2, b2, ok2 := core.IsLoadOfField(s)
+				if ok1 && ok2 && n1 == n2 && b1 == b2 {
+					same = true
+				}
+				if same {
+					lens = append(lens, call)
+				}
 			}
 		}
 	})
